@@ -6,6 +6,16 @@
 #include <cstdlib>
 #include <cstring>
 int main(int argc, char** argv) {
+  if (argc == 5 && !strcmp(argv[1], "open")) {
+    // usage: c19_replay open <TZDIR|-> <name> <expect 0|1> : load_time_zone(name) under the given $TZDIR must succeed / fail
+    if (strcmp(argv[2], "-")) setenv("TZDIR", argv[2], 1); else unsetenv("TZDIR");
+    cctz::time_zone tz;
+    const bool ok = cctz::load_time_zone(argv[3], &tz);
+    const bool want = atoi(argv[4]) != 0;
+    if (ok != want) { printf("load_time_zone('%s') with TZDIR=%s returned %d, expected %d\n", argv[3], argv[2], ok, want); return 1; }
+    if (!ok && tz != cctz::utc_time_zone()) { printf("load_time_zone('%s') failed but left '%s' instead of UTC\n", argv[3], tz.name().c_str()); return 1; }
+    printf("ok\n"); return 0;
+  }
   if (argc != 4) return 2;
   if (strcmp(argv[1], "-")) setenv("TZ", argv[1], 1); else unsetenv("TZ");
   if (strcmp(argv[2], "-")) setenv("LOCALTIME", argv[2], 1); else unsetenv("LOCALTIME");
